@@ -141,20 +141,19 @@ func deleteTypeToKV(dt pb.MutationProto_DeleteType) byte {
 	return 0
 }
 
-// c10Expected: the cells the specification implies, for shapes where the
-// meaning is unambiguous (nil and non-empty inner maps); ok=false otherwise.
+// c10Expected: the cells the specification implies.
 func c10Expected(c c10Case) (cells []flatCell, ok bool) {
 	ts := c.TS
 	if !c.HasTS || ts == math.MaxUint64 {
 		ts = math.MaxInt64
 	}
 	for fam, inner := range c.values() {
-		if inner != nil && len(inner) == 0 {
-			return nil, false
-		}
-		if inner == nil {
+		if len(inner) == 0 {
+			// no qualifiers: a delete names the whole family (the documented form is a nil map; an empty one
+			// cannot mean "the whole row", which is what a delete without any cell is to the server);
+			// any other mutation has nothing to write for this family
 			if c.Kind != "del" {
-				return nil, false
+				continue
 			}
 			typ := byte(wire.TypeDeleteFamily)
 			if c.OneVersion {
